@@ -167,11 +167,11 @@ def conclude(prop, tier, seed, comps, metas, results, infra, t_start, verbose=Fa
             except Exception as ex:  # a broken replayer must not hide the violation
                 rep['replay'] = {'reproduced': False, 'detail': 'replayer error: %r' % ex}
             json.dump(rep, open(path, 'w'), indent=1)
-            replayers.cleanup()
             suffix = '' if rep['replay'].get('reproduced') else ' no-failing-input-found'
             print('VIOLATION property=%s replay=%s%s' % (prop, path, suffix))
             print('  failed obligation: %s (group %s, enforced function %s)' % (ob_key(o), g.name, g.enforce))
             vio_files.append(path)
+        replayers.cleanup()
         rc = 1
     if infra:
         for i in infra:
